@@ -258,6 +258,57 @@ func runConfig(id string, toks []string) (res string) {
 			eq = 1
 		}
 		return fmt.Sprintf("eq=%d %s %s", eq, trees[0], trees[1])
+	case "sweep":
+		// sweep <lo> <hi>: EVERY eight-digit code in [lo, hi) through ValidatePin and util.XHMURI, judged by an
+		// independent validator / decoder written here from the property text
+		lo, _ := strconv.Atoi(toks[1])
+		hi, _ := strconv.Atoi(toks[2])
+		acc := 0
+		for code := lo; code < hi; code++ {
+			s := fmt.Sprintf("%08d", code)
+			trivial := s == "12345678" || s == "87654321"
+			if !trivial {
+				trivial = true
+				for i := 1; i < 8; i++ {
+					if s[i] != s[0] {
+						trivial = false
+						break
+					}
+				}
+			}
+			f, err := hc.ValidatePin(s)
+			if (err == nil) == trivial {
+				return fmt.Sprintf("bad-accept %s", s)
+			}
+			if err == nil {
+				acc++
+				if f != s[:3]+"-"+s[3:5]+"-"+s[5:] {
+					return fmt.Sprintf("bad-format %s", s)
+				}
+			}
+			cat, fl := uint8(code%251), util.SetupFlag(code%16)
+			u, err := util.XHMURI(s, "HOME", cat, []util.SetupFlag{fl})
+			if err != nil || len(u) != 20 || u[:7] != "X-HM://" || u[16:] != "HOME" {
+				return fmt.Sprintf("bad-uri %s", s)
+			}
+			var pl uint64
+			for _, ch := range u[7:16] {
+				var d uint64
+				switch {
+				case ch >= '0' && ch <= '9':
+					d = uint64(ch - '0')
+				case ch >= 'A' && ch <= 'Z':
+					d = uint64(ch-'A') + 10
+				default:
+					return fmt.Sprintf("bad-digit %s", s)
+				}
+				pl = pl*36 + d
+			}
+			if pl&0x7ffffff != uint64(code) || (pl>>27)&0xf != uint64(fl) || (pl>>31)&0xff != uint64(cat) || pl>>39 != 0 {
+				return fmt.Sprintf("bad-payload %s", s)
+			}
+		}
+		return fmt.Sprintf("ok n=%d acc=%d", hi-lo, acc)
 	case "hist":
 		return runHistory(toks[1:])
 	}
